@@ -553,3 +553,30 @@ Proof.
         destruct (prefix_before_dash p') eqn:Ep; [discriminate|].
         assert (prefix_before_dash r = Some p') as -> by (apply IH; split; [exists rest; exact E|exact Ep]). reflexivity.
 Qed.
+
+Lemma map_fst_pair {A B} (t : B) (l : list A) : map fst (map (fun e => (e, t)) l) = l.
+Proof. induction l; cbn; [reflexivity|f_equal; assumption]. Qed.
+(* guarded counterpart of use_symbol_filter_order_refuted: the conversion's chain is the viewport clip followed by the use's own
+   effects, the expansion's is the use's own effects followed by the viewport clip (then the symbol's in both); without a filter
+   on the use, everything that changes sides with the viewport clip is a clip-path or a mask, which commute with a clip *)
+Theorem use_symbol_order_guarded id orig_ts new_ts st sym_st c k sh :
+  g_filter st = [] ->
+  Forall (fun e => fst e <> 2%N) (effects st) /\
+  exists tl tl',
+    map fst (match cleaves_of (convert_use_symbol id orig_ts new_ts st sym_st (Some c) [TLeaf k sh]) with [(_, _, _, l)] => l | _ => [] end)
+      = (0%N, c) :: effects st ++ tl /\
+    map fst (match cleaves_of (expand_use_symbol id orig_ts new_ts st sym_st (Some c) [TLeaf k sh]) with [(_, _, _, l)] => l | _ => [] end)
+      = effects st ++ (0%N, c) :: tl' /\ tl = tl'.
+Proof.
+  intro Hf. split.
+  - unfold effects. rewrite Hf. cbn [map]. rewrite app_nil_r.
+    destruct (g_clip st), (g_mask st); repeat constructor; cbn; discriminate.
+  - unfold convert_use_symbol, expand_use_symbol, symbol_children, group_or_splice.
+    replace (is_g_or_use E_Symbol) with false by reflexivity. rewrite !orb_false_r.
+    cbn [cleaves_of flat_map cleaves app g_opacity clip_only effects g_clip g_mask g_filter map]; rewrite ?app_nil_r.
+    destruct (negb (gstyle_neutral sym_st) || negb (ts_is_identity new_ts)) eqn:R; cbn [flat_map cleaves app]; rewrite ?app_nil_r.
+    + exists (effects sym_st), (effects sym_st).
+      cbn [map fst]. rewrite ?map_app, !map_fst_pair. cbn [map fst]. rewrite <- ?app_assoc. repeat split; reflexivity.
+    + apply orb_false_iff in R as [Rn _]. apply negb_false_iff in Rn. exists [], (effects sym_st). rewrite (neutral_effects _ Rn).
+      cbn [map fst]. rewrite ?map_app, !map_fst_pair. cbn [map fst]. rewrite ?app_nil_r, <- ?app_assoc. repeat split; reflexivity.
+Qed.
